@@ -80,8 +80,11 @@ cls(
         # quiescent (no app_send in flight; app_send is assumed not to be re-entered): state
         # determines what has been emitted
         "app": [
-            ("HTTPStream.qinv.request", "implies(self.state == ASGIHTTPState.REQUEST, self.g_n_final == 0 and self.g_n_end == 0)", "C02,C12"),
-            ("HTTPStream.qinv.response", "implies(self.state in (ASGIHTTPState.RESPONSE, ASGIHTTPState.TRAILERS), self.g_n_final == 1 and self.g_n_end == 0)", "C02,C12"),
+            ("HTTPStream.qinv.request", "implies(self.state == ASGIHTTPState.REQUEST, self.g_n_final == 0 and self.g_n_end == 0)", "C02,C12,C05"),
+            # C05 rests on this pair: "no response had been started" is decided from self.state when
+            # the application exits, so state and the emitted events must agree on *every* exit of
+            # app_send, the exceptional ones included (seeded/C05-state-before-validation)
+            ("HTTPStream.qinv.response", "implies(self.state in (ASGIHTTPState.RESPONSE, ASGIHTTPState.TRAILERS), self.g_n_final == 1 and self.g_n_end == 0)", "C02,C12,C05"),
             ("HTTPStream.qinv.closed", "implies(self.state == ASGIHTTPState.CLOSED, self.g_n_end == 1)", "C02,C05"),
         ],
     },
